@@ -79,6 +79,11 @@ func (w *World) setAuth(r *http.Request, form url.Values, client, auth string) {
 		} else {
 			r.SetBasicAuth(url.QueryEscape(client), url.QueryEscape(ClientSecrets[client]))
 		}
+	case "body": // client_secret_post style
+		form.Set("client_id", client)
+		if !public {
+			form.Set("client_secret", ClientSecrets[client])
+		}
 	case "bad":
 		r.SetBasicAuth(url.QueryEscape(client), url.QueryEscape("not-the-secret"))
 	case "other": // another client's secret
@@ -924,6 +929,9 @@ func (w *World) doJAuth(p int, jti string) Obs {
 	_, _, k2 := Keys()
 	now := time.Now()
 	assertion := signJWT("RS256", k2, "kid-j", map[string]interface{}{"iss": "J", "sub": "J", "aud": TokenURL, "exp": now.Add(Tick).Unix(), "iat": now.Unix(), "jti": jti})
+	w.mu.Lock()
+	w.Assertions = append(w.Assertions, assertion)
+	w.mu.Unlock()
 	req := postReq("/token")
 	form := url.Values{"grant_type": {"client_credentials"}, "scope": {"a"},
 		"client_assertion_type": {"urn:ietf:params:oauth:client-assertion-type:jwt-bearer"}, "client_assertion": {assertion}}
